@@ -205,6 +205,38 @@ TimeOK(h, mi, sec, z) ==
 TimeTable == {[h |-> h, mi |-> mi, s |-> sec, z |-> z, ok |-> TimeOK(h, mi, sec, z)] :
                 h \in Hours, mi \in Minutes, sec \in Seconds, z \in {"", "Z", "+14:00", "+14:01", "+5:00"}}
 
+(* The other calendar types over the same field catalogues: xs:gYear (y z), xs:gYearMonth (y-m z),  *)
+(* xs:gMonth (--m z), xs:gDay (---d z), xs:gMonthDay (--m-d z; the day must exist in the month of    *)
+(* SOME year, so --02-29 is a value and --02-30 is not) and xs:dateTime (date 'T' h:00:00 z, where  *)
+(* 24:00:00 is the end of the day).                                                                  *)
+GYears == {"0000", "0001", "2023", "2024", "02024", "12024", "-0001", "24"}
+GZones == {"", "Z", "+14:01", "-14:00"}
+GregOK(ver, t, y, m, d, h, z) ==
+  /\ ZoneOK(z)
+  /\ CASE t = "gYear" -> YearOK(ver, y)
+       [] t = "gYearMonth" -> YearOK(ver, y) /\ MonthNum(m) # 0
+       [] t = "gMonth" -> MonthNum(m) # 0
+       [] t = "gDay" -> DayNum(d) # 0
+       [] t = "gMonthDay" -> MonthNum(m) # 0 /\ DayNum(d) # 0
+                             /\ DayNum(d) <= (IF MonthNum(m) = 2 THEN 29 ELSE 31)
+       [] OTHER -> DateOK(ver, y, m, d, z) /\ h \in {"00", "12", "23", "24"}
+GregRow(ver, t, y, m, d, h, z) ==
+  [t |-> t, y |-> y, m |-> m, d |-> d, h |-> h, z |-> z, ok |-> GregOK(ver, t, y, m, d, h, z)]
+GregTable(ver) ==
+  {GregRow(ver, "gYear", y, "", "", "", z) : y \in GYears, z \in GZones}
+  \cup {GregRow(ver, "gYearMonth", y, m, "", "", z) : y \in GYears, m \in Months, z \in GZones}
+  \cup {GregRow(ver, "gMonth", "", m, "", "", z) : m \in Months, z \in GZones}
+  \cup {GregRow(ver, "gDay", "", "", d, "", z) : d \in Days, z \in GZones}
+  \cup {GregRow(ver, "gMonthDay", "", m, d, "", z) : m \in Months, d \in Days, z \in GZones}
+  \cup {GregRow(ver, "dateTime", y, m, d, h, z) :
+          y \in {"0000", "2023", "2024", "24"}, m \in Months, d \in Days, h \in Hours, z \in {"", "Z", "+14:01"}}
+(* laws: a dateTime row is valid only if the date row is; the month-day needs no year *)
+GregLaws(ver) ==
+  /\ \A r \in GregTable(ver) : r.t = "dateTime" /\ r.ok => DateOK(ver, r.y, r.m, r.d, r.z)
+  /\ \A r \in GregTable(ver) : r.t = "gMonthDay" /\ r.ok =>
+        \E y \in Years : DateOK("1.1", y, r.m, r.d, r.z)
+  /\ \A r \in GregTable(ver) : r.t = "gYearMonth" /\ r.ok => GregOK(ver, "gYear", r.y, "", "", "", r.z)
+
 (* xs:duration as a little grammar: sign? 'P' (nY)? (nM)? (nD)? ('T' (nH)? (nM)? (n(.n)?S)?)?  *)
 (* with at least one component, 'T' only before a time component, units in order     *)
 (* and at most once.  A component is <<number class, unit>>; number classes "1",      *)
